@@ -319,12 +319,65 @@ func (fr *Frame) bindValues(lc *LoopContract, b *ssa.BasicBlock) []Value {
 			}
 		}
 		if found == nil {
+			// the local was renamed: fall back to the loop variables (header phis) of the declared type that no
+			// bind names, taken in order (the k-th unresolved bind of a type gets the k-th unnamed phi of that type).
+			// A wrong guess cannot prove anything false: the invariants are still checked against the code.
+			found = fr.bindByType(lc, b, bd)
+		}
+		if found == nil {
 			fr.st.oblige("bind", fmt.Sprintf("bind:loop%d:%s", lc.Ord, bd.Name), False)
 			unsup("loop bind %s not found", bd.SSAName)
 		}
 		out = append(out, fr.get(found))
 	}
 	return out
+}
+
+func (fr *Frame) bindByType(lc *LoopContract, b *ssa.BasicBlock, want LoopBind) ssa.Value {
+	named := map[string]bool{}
+	for _, bd := range lc.Binds {
+		named[bd.SSAName] = true
+	}
+	typeOf := func(t types.Type) string {
+		return types.TypeString(t, func(p *types.Package) string { return p.Name() })
+	}
+	matches := func(phi *ssa.Phi, ty string) bool {
+		ts := typeOf(phi.Type())
+		return ts == ty || strings.TrimPrefix(ts, fr.fn.Pkg.Pkg.Name()+".") == ty
+	}
+	// unresolved binds of this type, in contract order
+	k := -1
+	n := 0
+	for _, bd := range lc.Binds {
+		resolved := false
+		for _, in := range b.Instrs {
+			if phi, ok := in.(*ssa.Phi); ok && (phi.Comment == bd.SSAName || phi.Name() == bd.SSAName) {
+				resolved = true
+			}
+		}
+		if resolved || bd.SSAName == "rangeindex" || bd.Type != want.Type {
+			continue
+		}
+		if bd.Name == want.Name {
+			k = n
+		}
+		n++
+	}
+	if k < 0 {
+		return nil
+	}
+	i := 0
+	for _, in := range b.Instrs {
+		phi, ok := in.(*ssa.Phi)
+		if !ok || named[phi.Comment] || phi.Comment == "rangeindex" || !matches(phi, want.Type) {
+			continue
+		}
+		if i == k {
+			return phi
+		}
+		i++
+	}
+	return nil
 }
 
 func (fr *Frame) loopHeader(b, prev *ssa.BasicBlock, lrt *loopRT) {
